@@ -140,6 +140,7 @@ func init() {
 		c07DependenciesFirst(w, wc, r)
 		wireBracketBalance(w, wc, r, "C07", map[string]bool{"code": true, "test": true})
 		wireOneByteEndian(w, wc, r, "C07")
+		wireEmitOnceKeys(w, wc, r, "C07")
 		c12OptionValidation(w, r, "C07") // a value outside the documented list reaches the type tables as a missing row: empty type names in the output
 		wireTemplateTaint(w, wc, r, "C07", []string{"go", "rust", "java", "python", "cpp", "lua"})
 		wireAssumptions(r)
@@ -151,6 +152,7 @@ func init() {
 		c17Coverage(w, wc, r)
 		c17CopyBack(w, wc, r)
 		c17StickyState(w, wc, r)
+		wireEmitOnceKeys(w, wc, r, "C17")
 		wireBracketBalance(w, wc, r, "C17", map[string]bool{"test": true})
 		c17FloatSamples(w, r)
 		wireAssumptions(r)
